@@ -230,6 +230,7 @@ func (ch *channel) ReceiveAsync(ctx async.Context) ([]byte, bool, status.Status)
 	defer ch.release()
 
 	// Read next message
+	vtr("rq.poll", s.id, 0, 0)
 	data, ok, st := s.recvQueue.Read()
 	if !ok || !st.OK() {
 		return nil, ok, st
@@ -265,6 +266,7 @@ func (ch *channel) ReceiveWait() <-chan struct{} {
 	s := ch.acquire()
 	defer ch.release()
 
+	vtr("rq.arm", s.id, 0, 0)
 	return s.recvQueue.ReadWait()
 }
 
